@@ -28,11 +28,26 @@ def predicate_class(crate, fn_path):
     return out
 
 
+_TRAIT_FORM = {
+    IO_SYMBOL: "<parse::read::IoRead<R> as parse::read::Read<'de>>::parse_symbol",
+    SLICE_SYMBOL: "<parse::read::SliceRead<'a> as parse::read::Read<'a>>::parse_symbol",
+}
+
+
+def scanner_fn(crate, fn_path):
+    """The scanning helper, or - when it has been inlined into it - the reader's trait method of that role."""
+    g = crate.fn(fn_path)
+    if g is None and fn_path in _TRAIT_FORM:
+        g = crate.fn(_TRAIT_FORM[fn_path])
+    return g
+
+
 def scanner_classes(crate, fn_path):
     """For a scanning loop: (terminator bytes, continue bytes); None = EOF."""
-    g = crate.fn(fn_path)
+    g = scanner_fn(crate, fn_path)
     if g is None:
         return None
+    fn_path = g.path
     term, cont = set(), set()
     structural = (g.self_ty or "").startswith(lex.SLICE_READ) or lex.SLICE_READ + "::" in fn_path
     for d in DOM:
